@@ -49,7 +49,8 @@ func init() {
 		Assumptions: []string{
 			"landmark roles used are main/search (navigation/complementary are also 'unlikely' roles of the converter and would blind the observer)",
 			"a retained table follows retained text, so 'no <table> in the output' means 'classified as layout'; placement inside <li> is not generated because the text of a layout table inside a list item is cloned together with its table ancestors, which blinds this observer",
-			"the row/column counts of the statement are tr and td counts (th cells are not counted as columns)",
+			"rows are <tr> elements, the columns of a row are its cells, <td> and <th> alike; a rowspan/colspan that is not a positive number counts as 1",
+			"an editable area is an ancestor whose contenteditable attribute is in the true or plaintext-only state (\"true\", \"\", no value, \"plaintext-only\", any letter case)",
 		},
 		Exhaustive: func(tier string) bool { return tier == "thorough" },
 		N: func(tier string) int {
@@ -108,6 +109,7 @@ func runC18(c *Ctx, idx int) {
 	// a text-less <caption> in front of another header structure: the table
 	// still has a header structure, whichever way an empty caption is read
 	f.BlankCap = (idx/3)%2 == 0
+	f.EditSpell = int(mix64(uint64(idx)) % 4)
 	src := f.doc()
 	c.SetInput(func() any { return map[string]any{"html": src, "features": f} })
 	cr := c.applyVariant(src, nil, idx/3)
